@@ -11,6 +11,7 @@ mod c10;
 mod c12;
 mod c14;
 mod c15;
+mod c18;
 
 fn main() {
     let args: Vec<String> = std::env::args().collect();
@@ -25,6 +26,8 @@ fn main() {
         "first_line_hazard" => c01::first_line_hazard(rest),
         "cr_hazard" => c01::cr_hazard(rest),
         "pad_field" => c12::pad_field(rest),
+        "io_fail_bar" => c18::io_fail_bar(rest),
+        "io_fail_multi" => c18::io_fail_multi(rest),
         "human_float" => c15::human_float(rest),
         "human_count" => c15::human_count(rest),
         "formatted_duration" => c15::formatted_duration(rest),
